@@ -266,7 +266,7 @@ def r2(F, R):
         for p in ps:
             eqs = [(a, o) for a, o in p.conds if is_eq(a) and D.mentions(a, lambda y: y == name_t or y == ("refto", name_t))]
             nxt = [o for a, o in p.conds if a[0] == "discr" and a[1][0] == "call" and re.search(r"Iterator::next$", a[1][1])]
-            if p.cut:
+            if p.cut or (isinstance(p.ret, tuple) and p.ret and p.ret[0] == "loop"):      # (the loop may live in a private helper that was inlined)
                 okt = okt and bool(eqs) and eqs[-1][1] is False
             elif p.ret == ("const", True):
                 n_eq += 1
